@@ -241,6 +241,10 @@ inline void run_scenario(vh::Case &c, const Cfg &cfg, History &h)
     auto reader = std::make_shared<sdkm::PeriodicExportingMetricReader>(std::move(ex), o);
     reader->SetMetricProducer(&producer);  // starts the worker
     bool shut = false;
+    // The reader's owner (MeterContext) serialises Shutdown with a latch; two DIRECT concurrent
+    // MetricReader::Shutdown calls would both join the worker thread (not a supported use), so a
+    // Shutdown that would overlap another one is skipped.  Sequential repeats are generated.
+    int shutdown_in_progress = 0;
     auto run_prog = [&](const std::vector<Op> &prog) {
       for (auto &op : prog)
       {
@@ -255,6 +259,8 @@ inline void run_scenario(vh::Case &c, const Cfg &cfg, History &h)
             break;
           default:
           {
+            if (op.kind == Op::SHUTDOWN && shutdown_in_progress > 0)
+              break;
             CtlRec r;
             r.is_flush   = op.kind == Op::FLUSH;
             r.timeout_us = op.arg;
@@ -265,8 +271,10 @@ inline void run_scenario(vh::Case &c, const Cfg &cfg, History &h)
               r.result = reader->ForceFlush(to);
             else
             {
-              shut     = true;
+              shut = true;
+              ++shutdown_in_progress;
               r.result = reader->Shutdown(to);
+              --shutdown_in_progress;
             }
             r.ret = s.steps();
             h.ctl.push_back(r);
